@@ -227,7 +227,7 @@ def run_inproc(argv, cwd, captured):
 
 def run_subproc(argv, cwd, strace=False):
     env = dict(os.environ, PYTHONPATH=os.path.realpath(REPO), PYTHONDONTWRITEBYTECODE="1", PYTHONHASHSEED="0")
-    cmd = [sys.executable, "-m", "btc_hd_wallet"] + argv
+    cmd = [sys.executable] + (["-O"] if sys.flags.optimize else []) + ["-m", "btc_hd_wallet"] + argv
     tr = None
     if strace and shutil.which("strace"):
         tr = tempfile.mktemp(prefix="vp-c20-trace-")
@@ -414,7 +414,8 @@ def install_probes():
 # ------------------------------------------------------------------ generators
 FILE_KINDS = ["none", "none", "none", "none", "new", "new", "new-in-subdir", "new-absolute", "existing", "existing-absolute", "directory",
               "symlink-to-file", "dangling-symlink", "missing-parent", "file-as-parent", "empty", "dot"]
-ACCOUNTS = [("valid", "0"), ("valid", "1"), ("valid", "7"), ("valid", str(H - 2)), ("bound", str(H - 1)), ("bound", str(H)), ("bound", "-1"),
+ACCOUNTS = [("valid", "0"), ("valid", "1"), ("valid", "7"), ("valid", "44"), ("valid", "49"), ("valid", "84"), ("valid", "83696968"), ("valid", "1000000"),
+            ("valid", str(H - 2)), ("bound", str(H - 1)), ("bound", str(H)), ("bound", "-1"),
             ("junk", "abc"), ("junk", "1.5"), ("junk", ""), ("lenient", "+3"), ("lenient", " 4"), ("lenient", "1_0"), ("bound", str(1 << 32))]
 IV_ENDS = [-1, 0, 1, 2, H - 1, H, H + 1, (1 << 32) - 2, (1 << 32) - 1, 1 << 32]
 
